@@ -10,6 +10,11 @@ LEVEL = {
  "C07": ("symbolic execution of ParseAccept/NegotiateContentType/NegotiateContentEncoding: totality over arbitrary header bytes, selection oracle over range catalogues with symbolic q digits, q-order preservation with exact (tabulated / monotone-threshold) float encodings up to 21 digits", "DESIGN.md §2 C07"),
  "C08": ("exhaustive lattice produces × success code × method × Accept × handler outcome through the real untyped stack with instrumented producers; basic-auth challenge with symbolic realm", "DESIGN.md §2 C08"),
  "C09": ("all accessor sequences up to length 3 (quick) / 5 (thorough) with call counters; sequential two-request isolation; shared-write monitor over one request from a warmed-up shared Context (inductive step for any number of concurrent requests)", "DESIGN.md §2 C09"),
+ "C10": ("symbolic execution of the client URL construction (buildHTTP, PathEscape, url.Parse, EscapedPath) for path values of ≤1 (quick) / ≤2 (thorough) arbitrary bytes and placeholder-looking values over base-path × pattern catalogues, all set orders (thorough: all map iteration orders), caller/pattern/base query precedence; scheme selection exhaustive over lists of ≤3", "DESIGN.md §2 C10"),
+ "C14": ("client credential writers composed with the server authenticators on the same *http.Request: user/password/token of ≤2 (quick) / ≤4 (thorough) symbolic bytes through the real base64 encode/decode, header/query/form placements and precedence, default-auth lattice", "DESIGN.md §2 C14"),
+ "C18": ("exhaustive symbolic execution of TLSClientAuth over the whole option lattice with the crypto/file environment stubbed by nondeterministic outcomes; witnesses replayed against real crypto with the repository's fixtures", "DESIGN.md §2 C18"),
+ "C19": ("verify() on duplicate-free lists of ≤2 (quick) / ≤3 (thorough) one-byte symbolic names with set-equality/sortedness oracles decided by SMT; Validate() over description × registration-variation catalogue (exact, each omission, additions)", "DESIGN.md §2 C19"),
+ "C20": ("spec and UI middlewares over option catalogues with symbolic bytes and request paths = document path variants ⧺ symbolic tails / raw symbolic bytes; composition as built by the API handlers over absolute spec URLs", "DESIGN.md §2 C20"),
  "C17": ("every sequence of ≤3 (quick) / ≤4 (thorough) HasBody/Read/Close operations over a body of ≤2/≤3 symbolic bytes with nondeterministic chunking, empty reads, data+EOF and failures at any offset, through the real bufio.Reader", "DESIGN.md §2 C17"),
 }
 NOTE = "trusted: go/packages+go/ssa, the symgo interpreter with its leaf models (bytealg, sync, atomic, reflect, time), z3; configurations limited to the stated catalogues; see evidence.assumptions"
